@@ -546,7 +546,7 @@ type witness struct {
 
 // witnessModel re-executes one path and extracts a model of its final path condition.
 func (p *Program) witnessModel(w *witness, timeoutMs int) map[string]interface{} {
-	wk := &Worker{Program: p, id: 99}
+	wk := &Worker{Program: p, id: 99, bmemo: map[int]ival{}, varBound: map[int]ival{}}
 	wk.tt = newTermTable()
 	wk.solver = newSolver(wk.tt, "z3", timeoutMs)
 	defer wk.solver.Close()
